@@ -16,7 +16,7 @@ PROPS["C01"] = {
             "query/metadata/reopen steps over a 57-name pool with case variants and respelled paths, executed on the real "
             "crate and the abstract tree model side by side, full dump compared after every step group; "
             "non-trivial = the history contains >= 1 removal and >= 1 stream write >= 4096 bytes; distinct = FNV-64 of "
-            "(version, step list)",
+            "(version, step list). Eight shards first run one wide scenario each (a storage with 70-1330 children created in ascending / descending / outside-in / random order - a chain-shaped sibling tree, since the crate does not rebalance: listing, lookups, contents, removals of the deepest / shallowest / middle entries, reopen in both modes, new names on the reopened object, remove_storage_all)",
     "assumptions": COMMON_ASSUMPTIONS + [
         "paths returned by queries are compared case-insensitively (the library echoes the query spelling for the prefix)",
         "storage times set from the wall clock are adopted on first observation and must then stay constant",
@@ -25,7 +25,7 @@ PROPS["C01"] = {
     "quick": {"budget_s": 20},
     "thorough": {"budget_s": 300},
     "floors": {
-        "quick": {"evaluations": 2000, "removal_children.2": 100, "dumps_compared": 20000, "reopen.Strict": 50},
+        "quick": {"evaluations": 2000, "removal_children.2": 100, "dumps_compared": 20000, "reopen.Strict": 50, "wide.model_scenarios_passed": 8},
         "thorough": {"evaluations": 20000, "removal_children.2": 1000, "dumps_compared": 200000},
     },
 }
@@ -34,7 +34,7 @@ PROPS["C02"] = {
     "level": "exploration",
     "rule": "case = one seeded mutating history; a crash point = every boundary between API calls at which no handle holds "
             "unflushed data; at each, the MonFile bytes taken WITHOUT flush are reopened permissive and strict and the full dump "
-            "compared with model and live object; 15% of crash points fork the next 5-15 operations onto the reopened file; a fifth of the histories start from a synthesised foreign layout; four shards run a large scenario instead (v3 past the first DIFAT sector - thorough: the second -, v4 past 1024 sectors, v4 past 1024 mini sectors and 32 directory entries) with a crash point at every new FAT / MiniFAT / directory sector. "
+            "compared with model and live object; 15% of crash points fork the next 5-15 operations onto the reopened file; a fifth of the histories start from a synthesised foreign layout; four shards run a large scenario instead (v3 past the first DIFAT sector - thorough: the second -, v4 past 1024 sectors, v4 past 1024 mini sectors and 32 directory entries) with a crash point at every new FAT / MiniFAT / directory sector (in quick the second DIFAT sector is reached by one 8.4 MB set_len at the end); five shards first run the beyond-4-GiB scenario on a sparse store. "
             "non-trivial = history of >= 5 steps that was not abandoned; distinct = FNV-64 of (version, step list)",
     "assumptions": COMMON_ASSUMPTIONS + ["only logical results are compared after a reopen (free lists are rebuilt in index order, so byte images may legitimately differ)"],
     "checked_share": 0.6,
@@ -42,7 +42,7 @@ PROPS["C02"] = {
     "thorough": {"budget_s": 300},
     "floors": {
         "quick": {"crash_points": 50000, "forks": 5000, "hdr_change.num_fat_sectors": 100, "hdr_change.num_minifat": 1000, "hdr_change.first_minifat": 500,
-                  "large_scenarios": 4, "huge.scenarios_passed": 5, "large_scenario.crash_points_with_difat_sector": 10, "large_scenario.variant1.crash_points": 4, "large_scenario.variant3.crash_points": 6},
+                  "large_scenarios": 4, "huge.scenarios_passed": 5, "large_scenario.crash_points_past_second_difat_sector": 1, "large_scenario.crash_points_with_difat_sector": 10, "large_scenario.variant1.crash_points": 4, "large_scenario.variant3.crash_points": 6},
         "thorough": {"crash_points": 500000, "forks": 50000},
     },
 }
@@ -51,7 +51,7 @@ PROPS["C03"] = {
     "level": "exploration",
     "rule": "case = one seeded history (or, for case 0 of each shard, a large scenario: v3 image with a DIFAT sector / many small "
             "streams / v4 with several FAT sectors / v3 with more DIFAT growth / v4 with many small streams); after EVERY successful step the raw bytes are judged "
-            "by the independent rule checker (refparse.rs, 60 rules). non-trivial = history with >= 5 steps and >= 1 removal; "
+            "by the independent rule checker (refparse.rs, 59 rules). Eight shards first run a wide scenario (chain-shaped sibling tree of 70-1330 children: rules after creation, after each removal, after a reopen followed by 12-40 new entries - a new directory sector in v4 -, after remove_storage_all). non-trivial = history with >= 5 steps and >= 1 removal; "
             "distinct = FNV-64 of (version, step list)",
     "assumptions": COMMON_ASSUMPTIONS + [
         "tolerated, counted as slack not violations: mini-stream container / MiniFAT chain longer than the root size needs; root start sector kept when the mini stream is empty",
@@ -61,7 +61,7 @@ PROPS["C03"] = {
     "quick": {"budget_s": 22},
     "thorough": {"budget_s": 300},
     "floors": {
-        "quick": {"images_checked": 100000, "images_with_difat_sector": 1, "large_scenario.1": 1, "large_scenario.2": 1, "large_scenario.4": 1},
+        "quick": {"images_checked": 100000, "images_with_difat_sector": 1, "images_with_two_difat_sectors": 1, "large_scenario.1": 1, "large_scenario.2": 1, "large_scenario.4": 1, "wide.rules_scenarios_passed": 8},
         "thorough": {"images_checked": 1000000, "images_with_difat_sector": 2},
     },
 }
@@ -72,7 +72,7 @@ PROPS["C06"] = {
             "write/write_all/seek (18 argument classes incl. i64::MIN, i64::MAX, u64::MAX)/set_len/flush/position/len, replayed "
             "under 3 of the 10 max_buffer_size x 2 version configurations, each checked call by call against a Vec<u8>+cursor model "
             "(Read/Write contracts for raw calls); exact-count-only scripts must give identical traces under all configurations; "
-            "fresh-handle and reopen readbacks every 10-20 calls. every script is non-trivial (>= 20 calls); distinct = (script seed, initial length)",
+            "fresh-handle and reopen readbacks every 10-20 calls; a quarter of the scripts run on a stream of a synthesised foreign file whose unowned bytes (rest of the final sector, free sectors) hold garbage; five shards first run the beyond-4-GiB scenario. every script is non-trivial (>= 20 calls); distinct = (script seed, initial length)",
     "assumptions": COMMON_ASSUMPTIONS + ["raw read/write/fill_buf are checked against the std Read/Write/BufRead contracts, not an exact count",
                                          "position after a failed read_exact is unspecified by std and only required to lie in [pos, len]"],
     "checked_share": 0.7,
@@ -80,7 +80,7 @@ PROPS["C06"] = {
     "thorough": {"budget_s": 300},
     "floors": {
         "quick": {"scripts": 3000, "seek.end_i64min": 100, "seek.cur_i64min": 100, "seek.start_u64max": 100, "seek.end_i64max": 100, "seek.cur_i64max": 100,
-                  "scripts_big": 10, "differential_scripts_compared": 1000, "fresh_handle_readbacks": 10000, "huge.scenarios_passed": 5},
+                  "scripts_big": 10, "differential_scripts_compared": 1000, "fresh_handle_readbacks": 10000, "huge.scenarios_passed": 5, "start.foreign_dirty_slack": 5000},
         "thorough": {"scripts": 30000, "scripts_big": 300},
     },
 }
@@ -107,14 +107,14 @@ PROPS["C08"] = {
     "level": "exploration",
     "rule": "case = one seeded history over 5 stream names of create+write / remove / shrink / grow (lengths on both sides of 64, "
             "512, 4096, sector size), all payload bytes non-zero; after every growing set_len the gained range is read through the same "
-            "handle, after flush through a reopen in both modes, and must be all zero; a stale byte is classified by provenance; one in ten steps keeps a single handle open across long write / shrink / write at the new end / grow. "
+            "handle, after flush through a reopen in both modes, and must be all zero; a stale byte is classified by provenance; one in ten steps keeps a single handle open across long write / shrink / write at the new end / grow; a third of the histories start from a synthesised foreign file with garbage behind every stream end and in all free (mini) sectors; one step in 25 shrinks a scratch stream through a second handle and grows it through the stale first one (gained bytes = everything beyond the real end). "
             "non-trivial = history containing >= 1 checked grow; distinct = FNV-64 of steps",
     "assumptions": COMMON_ASSUMPTIONS,
     "checked_share": 0.6,
     "quick": {"budget_s": 15},
     "thorough": {"budget_s": 240},
     "floors": {
-        "quick": {"grows_checked": 20000, "grow.mini->mini": 5000, "grow.mini->regular": 3000, "grow.regular->regular": 500, "grow.empty->mini": 1000},
+        "quick": {"grows_checked": 20000, "grow.mini->mini": 5000, "grow.mini->regular": 3000, "grow.regular->regular": 500, "grow.empty->mini": 1000, "start.foreign_dirty_slack": 3000, "grows_after_shrink_through_another_handle": 10000},
         "thorough": {"grows_checked": 200000},
     },
 }
@@ -123,7 +123,7 @@ PROPS["C09"] = {
     "level": "exploration",
     "rule": "case = one seeded sibling-set history over two storages: a per-case pool of 6-14 random names (1-40 UTF-16 units, lengths "
             "30/31/32 emphasised, ASCII / Latin-1 / Greek / Cyrillic / exceptional upper-casing / caseless BMP >= U+E000 / supplementary "
-            "characters, forbidden characters injected) inserted in ascending, descending, middle-first or random order; creations, "
+            "characters, U+0000 inside and at the end of names, titlecase digraphs, polytonic Greek, forbidden characters injected) inserted in ascending, descending, middle-first or random order; creations, "
             "removals, lookups under case variants and re-spelled paths, listings, root-escaping paths; five monitors (validation with "
             "no write event, case-insensitivity, findability sweep, order via order.rs + on-disk BST via refparse, path normaliser). "
             "non-trivial = >= 10 steps; distinct = FNV-64 of steps",
@@ -147,7 +147,7 @@ PROPS["C10"] = {
             "existing name incl. case variant, non-empty storage, root, escaping path, invalid name, multi-step create_storage_all / "
             "remove_storage_all, out-of-range seek with a dirty buffer), long-lived dirty handles mixed in; for every call the model "
             "predicts as refused and that is refused: zero write events on the backing store, bytes identical, handle len/position "
-            "unchanged, and all later dumps equal a model that never saw the call. non-trivial = >= 3 refusals checked; distinct = FNV-64 of steps",
+            "unchanged, and all later dumps equal a model that never saw the call; a call refused with NotFound / AlreadyExists / InvalidInput although the model expected success must leave the bytes unchanged too; eight shards first run a wide scenario (storage with 1023-1500 children in a chain: five predicted refusals, then remove_stream of the deepest and a mid-chain entry and remove_storage_all, each judged if refused). non-trivial = >= 3 refusals checked; distinct = FNV-64 of steps",
     "assumptions": COMMON_ASSUMPTIONS,
     "checked_share": 0.6,
     "quick": {"budget_s": 18},
@@ -155,7 +155,7 @@ PROPS["C10"] = {
     "floors": {
         "quick": {"refusals_checked": 300000, "refusals_multi_step": 30000, "refusals_with_dirty_handle_present": 20000,
                   "refusal.seek | refuse:out_of_range+dirty_buffer": 2000, "refusal.create_storage_all | refuse:invalid_name": 10000,
-                  "refusal.create_storage | refuse:parent_is_stream": 5000, "refusal.remove_storage | refuse:not_empty": 5000},
+                  "refusal.create_storage | refuse:parent_is_stream": 5000, "refusal.remove_storage | refuse:not_empty": 5000, "wide.noeffect_scenarios_passed": 8, "wide.refusals_checked": 30},
         "thorough": {"refusals_checked": 3000000},
     },
 }
@@ -166,7 +166,7 @@ PROPS["C15"] = {
             "by 5-10 repetitions of one of 10 net-zero cycle templates (create-write-remove, nested storages + remove_storage_all, "
             "grow-then-shrink, overwrite with same content, several streams created then removed in same/reverse order, truncate-and-"
             "rewrite, rewrite across the 4096 cutoff through a new handle, append across the cutoff and shrink back, large -> small -> "
-            "remove, storage + state bits), a quarter of them with a reopen at the end of every repetition; the model certifies the "
+            "remove, storage + state bits; one case in 30 - thorough 12 - with megabyte sizes: streams of 2.2-6 MB, growth steps of 1-2.6 MB), a quarter of them with a reopen at the end of every repetition; the model certifies the "
             "cycle is net-zero, then the length of the backing store after every repetition r >= 3 must equal that after repetition 2 "
             "('unchanged from the second repetition on'). non-trivial = cycle certified net-zero and "
             "measured; distinct = FNV-64 of steps",
@@ -176,7 +176,7 @@ PROPS["C15"] = {
     "thorough": {"budget_s": 240},
     "floors": {
         "quick": {"cycles_checked": 30000, "cycles.template0.mini": 1500, "cycles.template0.regular": 500, "cycles.template1.mini": 1500,
-                  "cycles.template2.mini": 1500, "cycles.template4.regular": 500, "cycles.template7.mini": 500, "cycles.template7.regular": 300, "cycles.template8.mini": 500, "cycles.template9.mini": 500, "prefix.emptied": 5000, "prefix.fill_steered": 10000},
+                  "cycles.template2.mini": 1500, "cycles.template4.regular": 500, "cycles.template7.mini": 500, "cycles.template7.regular": 300, "cycles.template8.mini": 500, "cycles.template9.mini": 500, "prefix.emptied": 5000, "prefix.fill_steered": 10000, "cycles_megabyte_sized": 500},
         "thorough": {"cycles_checked": 300000},
     },
 }
@@ -187,7 +187,7 @@ PROPS["C17"] = {
             "classes: epoch +-{0,1,99,100,101 ns}, sub-100ns fractions, 1601 exactly +-, year 1000, now, 9999, the tick limit +-, year 1e5, "
             "random) on 5-80 entries interleaved with structural changes; checks: entry/listing/walk immediately (model with independent "
             "i128 tick arithmetic), reopen in both modes, raw bytes through the independent parser (GUID field layout, tick value), "
-            "clock window of new storages and touch. non-trivial = >= 3 metadata calls; distinct = FNV-64 of steps",
+            "clock window of new storages and touch; a fifth of the histories start from a synthesised foreign file whose unallocated directory entries carry stale CLSID / state / time fields. non-trivial = >= 3 metadata calls; distinct = FNV-64 of steps",
     "assumptions": COMMON_ASSUMPTIONS + ["set_modified_time / touch on the root changes the root's time (code behaviour; the doc comment of touch says otherwise)",
                                          "a clock window sample is skipped if the wall clock stepped backwards between the two readings"],
     "checked_share": 0.6,
@@ -196,7 +196,7 @@ PROPS["C17"] = {
     "floors": {
         "quick": {"live_checks": 200000, "reopen_checks": 50000, "raw_byte_checks": 50000, "clock_window_checks": 10000,
                   "time_class.before_1601_saturates": 2000, "time_class.beyond_tick_limit_saturates": 2000, "time_class.off_grid_before_1970": 5000,
-                  "time_class.off_grid_after_1970": 5000, "stream_touch_noop_checked": 300},
+                  "time_class.off_grid_after_1970": 5000, "stream_touch_noop_checked": 300, "start.foreign_dirty_free_slots": 2000},
         "thorough": {"live_checks": 2000000},
     },
 }
@@ -207,7 +207,7 @@ PROPS["C18"] = {
             "API, dirty handles flushed before queries) replayed under: A in-memory, A' the same again, C in-memory with 35% shortened "
             "and 10% spuriously Interrupted underlying reads/writes, B a real std::fs::File via cfb::create (over an older, larger file "
             "left at that path) / create_with_version and re-read via cfb::open / open_rw (1 in 6 histories), D another max_buffer_size, E the other format version; per-call "
-            "normalised outcomes and final dump must be identical across all, final bytes identical across A, A', B, C. "
+            "normalised outcomes and final dump must be identical across all, final bytes identical across A, A', B, C; the final bytes of C are also reopened through shortened / interrupted reads in both modes (dump must match); six fixed histories take a v3 file past 109 and 236 FAT sectors (DIFAT chain) under all configurations. "
             "non-trivial = >= 10 steps; distinct = FNV-64 of steps",
     "assumptions": COMMON_ASSUMPTIONS + ["the reported 'length' of storages/root (physical mini-stream size) is not compared across buffer sizes / versions"],
     "checked_share": 0.5,
@@ -215,7 +215,7 @@ PROPS["C18"] = {
     "thorough": {"budget_s": 240},
     "floors": {
         "quick": {"histories": 10000, "configurations_compared": 40000, "real_files_written": 1000, "underlying_calls_shortened": 10000000,
-                  "underlying_calls_interrupted": 3000000},
+                  "underlying_calls_interrupted": 3000000, "histories_with_difat_chain": 6, "reopens_through_perturbed_reads": 20000},
         "thorough": {"histories": 100000},
     },
 }
@@ -225,7 +225,7 @@ PROPS["C04"] = {
     "rule": "case = one random logical tree (0-70 objects, names incl. exceptional upper-casing and supplementary characters, sizes "
             "from the boundary set, CLSIDs/state/times) written by the independent synthesiser under a random legal layout (sector "
             "roles permuted with FREE sectors in between, fragmented non-monotone chains, directory entries in random slots with gaps, "
-            "textbook red-black sibling trees, permuted mini sectors, FAT sectors anywhere, one > 109-FAT-sector DIFAT-chain image per "
+            "textbook red-black sibling trees, permuted mini sectors, FAT sectors anywhere, garbage in all unowned bytes (a third), one or two spare FAT sectors (two fifths; such files are then grown until the library appends a FAT sector of its own), one > 109-FAT-sector DIFAT-chain image per "
             "shard); must pass the synth/refparse self-check (else harness error), then open strict+permissive with dump == tree and "
             "case-variant lookups, then a 10-30 step history with the C01+C02+C03 monitors. non-trivial = image with >= 3 objects "
             "accepted in both modes; distinct = FNV-64 of the image bytes",
@@ -234,8 +234,8 @@ PROPS["C04"] = {
     "quick": {"budget_s": 20},
     "thorough": {"budget_s": 300},
     "floors": {
-        "quick": {"opened.Strict": 10000, "opened.Permissive": 10000, "layout.red_nodes": 5000, "layout.dir_gaps": 5000, "layout.fragmented_chain": 3000,
-                  "layout.out_of_order_fat": 5000, "layout.free_sectors_inside": 2000, "layout.difat_chain": 8, "mutated_afterwards": 8000},
+        "quick": {"opened.Strict": 8000, "opened.Permissive": 8000, "layout.red_nodes": 5000, "layout.dir_gaps": 5000, "layout.fragmented_chain": 3000,
+                  "layout.out_of_order_fat": 5000, "layout.free_sectors_inside": 2000, "layout.difat_chain": 8, "mutated_afterwards": 8000, "layout.spare_fat_sectors": 1500, "layout.dirty_slack_and_free_sectors": 1500, "spare_fat_filled_past_coverage": 800},
         "thorough": {"opened.Strict": 100000, "layout.difat_chain": 50},
     },
 }
@@ -244,10 +244,10 @@ PROPS["C05"] = {
     "level": "exploration",
     "rule": "case = one hostile byte string: a valid base image (library-written or synthesised foreign layout, pool of 24 per shard) with "
             "1-4 structure-aware field corruptions (every header field, DIFAT/FAT/MiniFAT cells -> self/other chain/out of range/special "
-            "values, directory name/type/colour/links/start/size), or truncated/extended/bit-flipped, or a repo fuzz seed, or random "
+            "values, directory name/type/colour/links/start/size), or (one input in ten) a compound deviation - an orphaned entry adopted as a stream's child, a chain returning to its first sector under a huge length, a chain ending in FREESECT, two streams sharing a chain, a tail pointing into another chain -, or truncated/extended/bit-flipped, or a repo fuzz seed, or random "
             "bytes behind a valid header, or a DIFAT amplification input; opened permissive and strict, then the read-only battery (walk, "
             "listings, lookups, every stream read in odd chunks, fill_buf, read_to_end, extreme seeks). Monitors: panic hook, CPU-time "
-            "watchdog (10 s/case, isolated 10x confirmation), I/O step budget per API call, peak heap <= 8 MiB + 4096*len. "
+            "watchdog (10 s/case, isolated 10x confirmation), I/O step budget per API call, peak heap <= 8 MiB + 4096*len. Four shards first open and walk a library-written file with a chain-shaped directory (2500-9000 children, thorough up to 30000) on a thread with a 256 KiB stack. "
             "non-trivial = input that got past the header check; distinct = FNV-64 of the input",
     "assumptions": COMMON_ASSUMPTIONS + [
         "'never loops forever' is restated as bounded progress: CPU budget 10 s (unchanged tree: < 10 ms) and <= 64*(len/64+8)^2 underlying I/O calls per API call",
@@ -259,7 +259,7 @@ PROPS["C05"] = {
     "thorough": {"budget_s": 300},
     "floors": {
         "quick": {"evaluations": 200000, "accepted.Permissive": 50000, "accepted.Strict": 20000, "rejected_after_header": 200000, "streams_opened": 200000,
-                  "input.amplification": 3000, "input.repo_seed": 5000, "mutation.FatCell": 10000, "mutation.MiniFatCell": 10000, "mutation.DirStart": 10000, "mutation.size": 10000},
+                  "input.amplification": 3000, "input.repo_seed": 5000, "mutation.FatCell": 10000, "mutation.MiniFatCell": 10000, "mutation.DirStart": 10000, "mutation.size": 10000, "mutation.compound": 20000, "wide.hostile_scenarios_passed": 4},
         "thorough": {"evaluations": 2000000},
     },
 }
@@ -267,7 +267,7 @@ PROPS["C05"] = {
 PROPS["C11"] = {
     "level": "exploration",
     "rule": "case = one damaged input (C05's corruptor with emphasis on what permissive open never walks: stream start sectors/sizes, "
-            "root mini stream, MiniFAT/FAT cells, sibling links) that permissive open ACCEPTS, followed by 3-12 mutating calls "
+            "root mini stream, MiniFAT/FAT cells, sibling links; compound deviations in one input of ten) that permissive open ACCEPTS, followed by 3-12 mutating calls "
             "(create, write 0..70000 bytes, set_len to boundary sizes, overwrite, remove, remove_storage_all, metadata, flush, reads). "
             "Monitors: panic hook with location (handles are leaked on unwind so that the first panic is the one reported), CPU-time "
             "watchdog 5 s/case with isolated 10x confirmation, allocation cap. non-trivial = accepted input; distinct = FNV-64 of the input",
@@ -277,7 +277,7 @@ PROPS["C11"] = {
     "quick": {"budget_s": 22},
     "thorough": {"budget_s": 300},
     "floors": {
-        "quick": {"accepted_by_permissive_open": 300000, "op.remove_stream": 100000, "mutation.DirStart": 50000, "mutation.MiniFatCell": 50000, "mutation.FatCell": 50000, "mutation.size": 50000},
+        "quick": {"accepted_by_permissive_open": 300000, "op.remove_stream": 100000, "mutation.DirStart": 50000, "mutation.MiniFatCell": 50000, "mutation.FatCell": 50000, "mutation.size": 50000, "mutation.compound": 30000},
         "thorough": {"accepted_by_permissive_open": 3000000},
     },
 }
@@ -288,7 +288,7 @@ PROPS["C16"] = {
             "accepts it, permissive must accept it and both dumps (tree, metadata, bytes) must be identical. part B: a valid base "
             "(library-written, synthesised foreign layout, synthesised with 1-2 DIFAT sectors, library-written with a DIFAT sector) with "
             "1-4 of the 18 documented deviations injected at a random applicable place with varied values (whole / partial zero padding, unmarked cells holding special markers, zero or stale sector numbers, root names with forbidden characters; DIFAT-related ones steered into pairs): "
-            "permissive open must give exactly the undamaged file's dump and strict open must reject. non-trivial = part A input accepted "
+            "permissive open must give exactly the undamaged file's dump and strict open must reject; two images of three are opened with a max_buffer_size, the two builder calls in either order. non-trivial = part A input accepted "
             "by strict, or part B input judged; distinct = FNV-64 of the input bytes",
     "assumptions": COMMON_ASSUMPTIONS + [
         "header first_difat_sector = FREESECT is accepted by BOTH modes (header.rs documents it without tying it to validation), so it is not in the must-reject list",
@@ -314,7 +314,7 @@ PROPS["C12"] = {
     "rule": "workload = (library-written image with mini and regular streams in both versions, read-only call script: open, walk, lookups, "
             "per stream ~14 buffered reads in odd chunk sizes / fill_buf+consume / forward and backward seeks through a 1024-byte buffer, "
             "read_to_end) on a Read+Seek-only backend; the fault-free run counts the N underlying read/seek calls; then a one-shot failure "
-            "is injected at EVERY position k < N (kinds Other, UnexpectedEof, TimedOut, plus 'short then fail'); after a failed read the "
+            "is injected at EVERY position k < N (kinds Other, UnexpectedEof, TimedOut, Interrupted, plus 'short then fail'); after a failed read the "
             "script looks behind the position (seek back, read, seek forward) and then retries the call up to 3x; pairs (k1,k2) exhaustively when N <= 150 else 1500 (quick) / 20000 (thorough) sampled pairs. One "
             "workload per shard in quick (16), 6 per shard in thorough. evaluations = faulty runs; distinct_nontrivial = distinct "
             "(workload, position, variant) triples; exhaustive = every workload's single-fault positions were all visited",
@@ -335,11 +335,11 @@ PROPS["C13"] = {
             "buffers so that write-backs happen inside write/seek/read/set_len/flush, migration across 4096, set_len, reopen and "
             "overwrite, remove, metadata, CompoundFile::flush; handles always flushed explicitly); a one-shot failure is injected at "
             "EVERY position of the underlying write calls, of the seek calls and of the flush calls (every third write fault as 'short "
-            "write then fail'); each failed API call is retried up to 2x. Oracles: the API call inside which the underlying call failed "
+            "write then fail'), plus a 'store full' sweep (from the k-th write on every underlying write returns Ok(0)); each failed API call is retried up to 2x; every faulty run is limited to 50x the fault-free underlying call count + 20000 (bounded progress in logical steps). Oracles: the API call inside which the underlying call failed "
             "returns Err; no panic and no request on the (instrumented) lock that would block forever; an Ok flush implies the underlying "
             "writer was flushed after its last write; an Ok set_len shows the new length to a fresh lookup; whenever Stream::flush returns Ok a fresh handle reads back every byte accepted by earlier write "
-            "calls on that handle, and so does the reopened byte image - also after a failed flush. One workload per shard in quick (two script families alternate over the shards), six in thorough. evaluations = faulty runs; "
-            "distinct_nontrivial = distinct (workload, kind, position); exhaustive = all positions of all three kinds visited",
+            "calls on that handle, and so does the reopened byte image - also after a failed flush. One workload per shard in quick (three script families: two handles with migrations; v3 directory/FAT growth and truncating re-creation; v4 directory growth at the 33rd entry, swept from that creation on), six in thorough. evaluations = faulty runs; "
+            "distinct_nontrivial = distinct (workload, kind, position); exhaustive = all positions of all four sweeps visited (family C: all positions from its marker on)",
     "assumptions": COMMON_ASSUMPTIONS + ["errors swallowed by Stream::drop are outside the property (handles are flushed explicitly, and leaked rather than dropped if that keeps failing)",
                                          "after a failed structural call (create/remove/set_len) the affected content is no longer compared; only error reporting and no-panic are judged"],
     "checked_share": 0.5,
@@ -347,7 +347,7 @@ PROPS["C13"] = {
     "quick": {"budget_s": 45},
     "thorough": {"budget_s": 400},
     "floors": {
-        "quick": {"exhaustive_workloads": 16, "positions.write": 8000, "positions.seek": 8000, "positions.flush": 100, "ok_flush_readbacks": 50000, "ok_flush_after_failed_flush_readbacks": 5000, "ok_flush_reopen_readbacks": 50000},
+        "quick": {"exhaustive_workloads": 16, "positions.write": 8000, "positions.seek": 8000, "positions.flush": 100, "positions.full": 8000, "ok_flush_readbacks": 50000, "ok_flush_after_failed_flush_readbacks": 5000, "ok_flush_reopen_readbacks": 50000},
         "thorough": {"exhaustive_workloads": 96},
     },
 }
@@ -401,10 +401,10 @@ PROPS["C14"] = {
     "rule": "three monitors over the instrumented lock (hook cfg cfb_verif). M1 (1 process): single-threaded drive through every "
             "read-only method / iterator shape / handle operation on trees with left, right and child links, recording per thread the "
             "guards held at every acquisition; a request while the same thread holds a guard on the same lock is a violation (no lucky "
-            "schedule needed). M2 forced (3 processes x <= 40 rounds): 2 readers + the writer thread; a reader about to re-acquire is "
+            "schedule needed); includes error-path scripts (every underlying call failing) and two handles on one stream, one of them stale after a truncation through the other. M2 forced (3 processes x <= 40 rounds): 2 readers + the writer thread; a reader about to re-acquire is "
             "parked between its two critical sections until a write request is outstanding, so a hazard becomes a real deadlock, "
             "certified by the wait-for state (every live worker requested-not-granted > 2 s). M2 stress (12 processes): 1-8 readers x "
-            "50-400 read-only calls against 30-200 writer operations (append, flush, set_len, read) with random micro-delays at "
+            "50-400 read-only calls against 30-200 writer operations (append, flush, set_len - twice per round by 4.3-9.3 MB -, read) with random micro-delays at "
             "Request/Released; every reader observation of entry().len() must equal the directory-entry length after some whole writer "
             "operation overlapping it. M3: Miri (-Zmiri-many-seeds, 16 seeds quick / 192 thorough) on a 2-reader + writer program. "
             "evaluations = rounds + Miri seeds; distinct_nontrivial = distinct acquisition sites (M1) + distinct grant-order prefixes (M2)",
@@ -417,7 +417,7 @@ PROPS["C14"] = {
     "quick": {"budget_s": 25},
     "thorough": {"budget_s": 300},
     "floors": {
-        "quick": {"m1.distinct_acquisition_sites": 8, "m1.handle_scripts": 10, "m2.forced_rounds": 60, "m2.stress_rounds": 100, "m2.reader_results_checked": 20000,
+        "quick": {"m1.distinct_acquisition_sites": 8, "m1.handle_scripts": 10, "m1.two_handle_scripts": 2, "m2.forced_rounds": 60, "m2.stress_rounds": 100, "m2.reader_results_checked": 20000,
                   "m3.miri_seeds_completed": 16},
         "thorough": {"m2.stress_rounds": 1000, "m3.miri_seeds_completed": 192},
     },
